@@ -2,6 +2,7 @@ package main
 
 import (
 	"fmt"
+	"go/constant"
 	"go/token"
 	"go/types"
 	"sort"
@@ -621,6 +622,38 @@ func checkCLIChain(p *Prog, r *Report) {
 		if !strings.HasSuffix(rt, ".PacketFillerOption") || !strings.HasPrefix(rt, "[]") {
 			continue
 		}
+		// every value option of the filler package is used by the builder (a flag whose option is
+		// never passed is silently ignored)
+		called := map[*ssa.Function]bool{}
+		var optPkg *ssa.Package
+		for _, b := range fn.Blocks {
+			for _, in := range b.Instrs {
+				if c, ok := in.(*ssa.Call); ok {
+					if cal := StaticCallee(&c.Call); cal != nil && SummOption(cal) != nil {
+						called[cal] = true
+						optPkg = cal.Pkg
+					}
+				}
+			}
+		}
+		if optPkg != nil {
+			var names []string
+			for nm := range optPkg.Members {
+				names = append(names, nm)
+			}
+			sort.Strings(names)
+			for _, nm := range names {
+				of, isF := optPkg.Members[nm].(*ssa.Function)
+				if !isF || of.Signature.Params().Len() != 1 || !strings.HasSuffix(types.TypeString(fn.Signature.Results().At(0).Type(), nil), types.TypeString(of.Signature.Results().At(0).Type(), nil)) {
+					continue
+				}
+				sm := SummOption(of)
+				if sm == nil || len(sm.Writes) != 1 {
+					continue
+				}
+				r.Check(called[of], "C05.R3", FuncName(fn)+"/uses/"+of.Name(), p.Pos(fn.Pos()), "the options builder passes every value option of its filler package (the matching CLI flag is not ignored)", of.Name()+" is never passed")
+			}
+		}
 		// every option constructor call in the function
 		for _, b := range fn.Blocks {
 			for _, in := range b.Instrs {
@@ -645,6 +678,7 @@ func checkCLIChain(p *Prog, r *Report) {
 					continue
 				}
 				r.Check(got == want, "C05.R3", key, p.Pos(c.Pos()), fmt.Sprintf("filler field %s is fed by --%s", field, want), fmt.Sprintf("fed by %q", got))
+				checkLinkAlways(p, r, "C05.R3", fn, c, field)
 			}
 		}
 	}
@@ -801,9 +835,9 @@ func checkVPNWiring(p *Prog, r *Report) {
 		}
 		seen, okAll, detail := false, true, ""
 		var pos string
-		for _, s := range Paths(fn).Segs {
+		for _, s := range PathsInl(fn).Segs {
 			for _, e := range s.Events {
-				if e.Kind != EvStore {
+				if e.Kind != EvStore || e.Instr.Parent() != fn {
 					continue
 				}
 				fa, ok := e.Addr.(*ssa.FieldAddr)
@@ -832,4 +866,156 @@ func checkVPNWiring(p *Prog, r *Report) {
 			r.Check(okAll, "C05.R4", FuncName(fn)+"/sets-vpnMode", pos, "VPN framing is selected exactly when the scan range has no source MAC", detail)
 		}
 	}
+}
+
+// checkLinkAlways: an option built from a CLI value is handed to the filler on every path, or is
+// skipped only for a value that changes nothing: the value the flag has when it is not given, or
+// the value the filler constructor installs itself.
+func checkLinkAlways(p *Prog, r *Report, rule string, fn *ssa.Function, c *ssa.Call, field string) {
+	key := FuncName(fn) + "/" + field + "/always-applied"
+	pos := p.Pos(c.Pos())
+	fv := fieldVarOfLoad(c.Call.Args[0])
+	if fv == nil {
+		r.Undecided(rule, key, pos, "the option argument is an options field", "argument is "+c.Call.Args[0].String())
+		return
+	}
+	fp := Paths(fn)
+	if fp.Truncated {
+		r.Undecided(rule, key, pos, "the option list builder has few paths", "too many paths")
+		return
+	}
+	ok, why := true, ""
+	for _, s := range fp.Segs {
+		if !s.Returns() || s.Has(c) {
+			continue
+		}
+		// what does this path know about the field?
+		skipped := "" // "zero" / "empty"
+		for _, f := range s.Facts {
+			b, isB := f.Cond.(*ssa.BinOp)
+			if !isB {
+				continue
+			}
+			x, y := b.X, b.Y
+			op := b.Op
+			if _, isC := x.(*ssa.Const); isC {
+				x, y = y, x
+				op = flipOp(op)
+			}
+			k, isK := constInt(y)
+			if !isK {
+				continue
+			}
+			isLen := false
+			if lc, isCall := x.(*ssa.Call); isCall {
+				if bi, isBi := lc.Call.Value.(*ssa.Builtin); isBi && bi.Name() == "len" {
+					x, isLen = lc.Call.Args[0], true
+				}
+			}
+			if fieldVarOfLoad(s.Resolve(x)) != fv && fieldVarOfLoad(x) != fv {
+				continue
+			}
+			zero := false
+			switch {
+			case op == token.EQL && k == 0 && f.Truth, op == token.NEQ && k == 0 && !f.Truth,
+				op == token.GTR && k == 0 && !f.Truth && isLen, op == token.LSS && k == 1 && f.Truth && isLen,
+				op == token.LEQ && k == 0 && f.Truth && isLen, op == token.GEQ && k == 1 && !f.Truth && isLen:
+				zero = true
+			}
+			if zero {
+				skipped = "zero"
+				if isLen {
+					skipped = "empty"
+				}
+			}
+		}
+		if skipped == "" {
+			ok, why = false, "a path leaves the option out under a condition that does not pin the value to zero/empty"
+			continue
+		}
+		// (a) the flag's own default is that value
+		legit := false
+		regs := p.FlagsOfField(fv)
+		if len(regs) == 0 {
+			// parsed field: the raw flag behind it
+			for _, val := range p.StoresToField(fv) {
+				if ex, isEx := val.(*ssa.Extract); isEx && ex.Index == 0 {
+					if pc, isPC := ex.Tuple.(*ssa.Call); isPC && len(pc.Call.Args) > 0 {
+						if raw := fieldVarOfLoad(pc.Call.Args[0]); raw != nil {
+							regs = append(regs, p.FlagsOfField(raw)...)
+						}
+					}
+				}
+			}
+		}
+		for _, rg := range regs {
+			if rg.Default == nil {
+				continue
+			}
+			switch rg.Default.Kind() {
+			case constant.String:
+				legit = legit || constant.StringVal(rg.Default) == ""
+			case constant.Int:
+				v, _ := constant.Int64Val(rg.Default)
+				legit = legit || v == 0
+			}
+		}
+		// (b) the constructor installs the same value
+		if !legit {
+			if ctor := fillerCtorOf(p, StaticCallee(&c.Call)); ctor != nil {
+				if dv, has := ctorDefault(ctor, field); !has {
+					legit = true // zero value
+				} else if k, isK := constInt(dv); isK && k == 0 {
+					legit = true
+				}
+			}
+		}
+		if !legit {
+			ok, why = false, fmt.Sprintf("the option is left out when the value is %s, but neither the flag's default nor the filler's own default is %s: an explicitly requested %s value is replaced by the filler default", skipped, skipped, skipped)
+		}
+	}
+	r.Check(ok, rule, key, pos, "the CLI value reaches the filler on every path (or is left out only for the flag's not-given value / the filler's own default)", why)
+}
+
+func flipOp(op token.Token) token.Token {
+	switch op {
+	case token.LSS:
+		return token.GTR
+	case token.GTR:
+		return token.LSS
+	case token.LEQ:
+		return token.GEQ
+	case token.GEQ:
+		return token.LEQ
+	}
+	return op
+}
+
+// fillerCtorOf: the variadic constructor of the filler the option belongs to (same package).
+func fillerCtorOf(p *Prog, opt *ssa.Function) *ssa.Function {
+	if opt == nil || opt.Pkg == nil {
+		return nil
+	}
+	for _, m := range opt.Pkg.Members {
+		if f, ok := m.(*ssa.Function); ok && f.Signature.Variadic() && f.Signature.Results().Len() == 1 &&
+			strings.HasSuffix(types.TypeString(f.Signature.Results().At(0).Type(), nil), ".PacketFiller") {
+			return f
+		}
+	}
+	return nil
+}
+
+// ctorDefault: the value the constructor stores into the filler field before the options run.
+func ctorDefault(ctor *ssa.Function, field string) (ssa.Value, bool) {
+	var v ssa.Value
+	for _, b := range ctor.Blocks {
+		for _, in := range b.Instrs {
+			if st, ok := in.(*ssa.Store); ok {
+				if fa, isFA := st.Addr.(*ssa.FieldAddr); isFA && fieldName(fa.X.Type(), fa.Field) == field {
+					v = st.Val
+				}
+			}
+		}
+	}
+	return v, v != nil
 }
